@@ -35,6 +35,28 @@ UTF7_PAYLOADS = ['a+ACc-)+canary()+(+ACc-b', 'a+ACc- if canary() else +ACc-b', '
 INTERNAL_MARKERS = ['$CUTIF']      # names the code generator uses internally (read off yp_generator.py)
 
 
+_HARVEST = []
+
+
+def harvested_names():
+    """identifiers that the code generator itself uses (read off its output for a small sample program) and that
+    the lexer would accept as Prolog variable names: the names a clause variable could capture"""
+    if not _HARVEST:
+        names = set()
+        try:
+            code = impl.compile_text("p(X, Y) :- q(X, _), ( r(Y) -> s ; \\+ t(X, [Y|Z], f(Z)) ), findall(A, u(A), L), call(L, X), !.\np(a, b).\n")
+            for n in ast.walk(ast.parse(code)):
+                if isinstance(n, ast.Name):
+                    names.add(n.id)
+                elif isinstance(n, ast.arg):
+                    names.add(n.arg)
+        except Exception:      # noqa
+            pass
+        user = {'X', 'Y', 'Z', 'A', 'L'}
+        _HARVEST.extend(sorted(x for x in names if re.fullmatch(r'[A-Z_][A-Za-z0-9_]*', x) and x not in user) or ['X'])
+    return _HARVEST
+
+
 def q(name):
     """source text of a quoted atom denoting `name` as far as the lexer allows (a quote is written backslash-quote)"""
     return "'" + name.replace("'", "\\'") + "'"
@@ -61,9 +83,32 @@ def analyse(code):
             problems.append('function %r has %d parameters' % (node.name, len(a.args)))
         params = {x.arg for x in a.args}
         assigned = set()
+        stores = {}
         for sub in ast.walk(node):
             if isinstance(sub, ast.Name) and isinstance(sub.ctx, (ast.Store, ast.Del)):
                 assigned.add(sub.id)
+                stores[sub.id] = stores.get(sub.id, 0) + 1
+        # local aliases of engine functions (`_unify, _query = unify, query` as first statements of the function): calls
+        # through them are calls of the engine function - provided nothing else in the function can rebind the alias
+        aliases = {}
+        for st in node.body:
+            if isinstance(st, ast.Expr) and isinstance(st.value, ast.Constant):
+                continue
+            if not isinstance(st, ast.Assign):
+                break               # aliases are set up by the simple assignments that open the function
+            if len(st.targets) != 1:
+                continue
+            tg, val = st.targets[0], st.value
+            tgs = tg.elts if isinstance(tg, ast.Tuple) else [tg]
+            vals = val.elts if isinstance(val, ast.Tuple) else [val]
+            if len(tgs) != len(vals) or not all(isinstance(x, ast.Name) for x in tgs) or \
+                    not all(isinstance(v, ast.Name) and v.id in API_NAMES for v in vals):
+                continue
+            for x, v in zip(tgs, vals):
+                aliases[x.id] = v.id
+        for al in aliases:
+            if stores.get(al, 0) > 1 or al in params:
+                problems.append('%r, a local alias of the engine function %s, is bound again in %s (a clause variable captures it)' % (al, aliases[al], node.name))
         for tgt in params | assigned:
             if tgt in RESERVED_TARGETS:
                 problems.append('%r is bound as a local name in %s (captures an engine / Python name)' % (tgt, node.name))
@@ -76,7 +121,7 @@ def analyse(code):
                 if sub.id not in params and sub.id not in assigned and sub.id not in API_NAMES:
                     problems.append('free name %r in %s' % (sub.id, node.name))
             elif isinstance(sub, ast.Call):
-                if not (isinstance(sub.func, ast.Name) and sub.func.id in API_CALLABLES):
+                if not (isinstance(sub.func, ast.Name) and (sub.func.id in API_CALLABLES or aliases.get(sub.func.id) in API_CALLABLES)):
                     problems.append('call of something that is not an engine API function in %s: %s' % (node.name, ast.dump(sub.func)[:60]))
                 if any(k.arg is None for k in sub.keywords):
                     problems.append('**kwargs call in %s' % node.name)
@@ -147,7 +192,7 @@ class C12(Prop):
         for _ in range(1 + src.n(4)):
             k = src.n(10)
             h = self.hostile(src)
-            v = src.pick(VARNAMES)
+            v = src.pick(VARNAMES) if src.n(3) else src.pick(harvested_names())
             if k == 0:
                 clauses.append('%s(a) :- true.' % q(h))
                 positions.append('head-name')
